@@ -1131,6 +1131,57 @@ def _reuse_nested_code(code, fname, original):
     return code.replace(co_consts=tuple(consts))
 
 
+def _enclosing_class(fn):
+    """Name of the class in whose body fn was written, if any."""
+    parts = fn.__qualname__.split(".")[:-1]
+    for i in range(len(parts) - 1, -1, -1):
+        followed_by_locals = i + 1 < len(parts) and parts[i + 1] == "<locals>"
+        if parts[i] != "<locals>" and not followed_by_locals:
+            return parts[i]
+    return None
+
+
+class _PrivateNameMangler(NodeTransformer):
+    """Apply the private name mangling (``__x`` -> ``_Class__x``).
+
+    Python does this at compile time for code written in a class body. The
+    instrumented source of a method is compiled outside of its class.
+    """
+
+    def __init__(self, classname):
+        super().__init__()
+        self.prefix = "_" + classname.lstrip("_")
+        self.active = bool(classname.strip("_"))
+
+    def mangle(self, name):
+        if (
+            self.active
+            and isinstance(name, str)
+            and name.startswith("__")
+            and not name.endswith("__")
+        ):
+            return self.prefix + name
+        return name
+
+    def visit_ClassDef(self, node):
+        # A nested class has its own name to mangle with
+        return node
+
+    def visit_Name(self, node):
+        node.id = self.mangle(node.id)
+        return node
+
+    def visit_Attribute(self, node):
+        self.generic_visit(node)
+        node.attr = self.mangle(node.attr)
+        return node
+
+    def visit_arg(self, node):
+        self.generic_visit(node)
+        node.arg = self.mangle(node.arg)
+        return node
+
+
 def _standard_info():
     return {
         "#enter": {
@@ -1256,6 +1307,9 @@ def transform(fn, proceed, to_instrument=True, set_conformer=True):
             f"transform() only works on functions defined with def (got {fn})"
         )
     tree.decorator_list = []
+    classname = _enclosing_class(fn)
+    if classname is not None:
+        _PrivateNameMangler(classname).visit(tree)
     # Default values belong to the scope where the function was defined and
     # were evaluated when it was: do not evaluate them again (side effects,
     # names of the enclosing function), reuse the original objects below
